@@ -478,6 +478,12 @@ class Diagram(rigid.Diagram):
         return Diagram.cups(left, right).dagger()
 
     @staticmethod
+    def permutation(perm, dom=None):
+        if dom is None:
+            return rigid.Diagram.permutation(perm)
+        return monoidal.Diagram.permutation(perm, dom, ar_factory=Diagram)
+
+    @staticmethod
     def swap(left, right):
         return monoidal.Diagram.swap(
             left, right, ar_factory=Diagram, swap_factory=Swap)
